@@ -296,6 +296,12 @@ template <typename W> void run_history(const Case& cs, size_t cell_cap) {
     case 3: os = seed + 1; break;
     case 4: if (b % 2 == 0 && b / 2 >= 3 && h <= 127) { oh = static_cast<uint8_t>(2 * h); ob = b / 2; } else if (h % 2 == 0) { oh = h / 2; ob = 2 * b; } else ob = b + 1; break;
     case 5: os = seed + 2147483647ull; break;  // same minstd_rand0 state, different seed
+    case 6: case 7: {  // another seed with the SAME 16-bit seed hash (what an image carries): still another set of hash functions
+      os = seed + 1;
+      for (int tries = 0; tries < 4000000 && vf::ref_seed_hash(os) != vf::ref_seed_hash(seed); ++tries) ++os;
+      if (vf::ref_seed_hash(os) == vf::ref_seed_hash(seed)) vf::label("odd:seed-with-the-same-seed-hash");
+      break;
+    }
     default: ob = b + 1;
   }
   auto oddc = std::make_shared<HashCfg>(oh, ob, os);
@@ -593,7 +599,7 @@ rc::Gen<Case> gen_main() {
                     {"seed", rc::gen::weightedOneOf<int64_t>({{2, rc::gen::just<int64_t>(0)}, {2, range(1, 4)}, {3, range(5, 1 << 20)}})},
                     {"wt", range(0, 2)},
                     {"neg", rc::gen::weightedOneOf<int64_t>({{2, rc::gen::just<int64_t>(0)}, {1, rc::gen::just<int64_t>(1)}})},
-                    {"odd", range(1, 5)},
+                    {"odd", range(1, 7)},
                     {"pre", rc::gen::weightedOneOf<int64_t>({{1, rc::gen::just<int64_t>(0)}, {3, range(1, 32 * 7 - 1)}})}},
                    oplist(op_gen(), 4, 0.4));
 }
@@ -604,7 +610,7 @@ rc::Gen<Case> gen_large() {
                     {"seed", range(0, 1 << 20)},
                     {"wt", range(0, 2)},
                     {"neg", pick({0, 0, 0, 1})},
-                    {"odd", range(1, 5)},
+                    {"odd", range(1, 7)},
                     {"pre", range(0, 32 * 7 - 1)}},
                    oplist(op_gen(), 2, 0.12));
 }
